@@ -12,7 +12,7 @@ SPEC = {
         "C02_nonvacuous", "C02_lines_nonvacuous"],
         "Properties.C19": ["C19_relaxed_total"]},
     "harness_args": lambda tier: ["C02", "--n", 400, "--bin-variants", 1] if tier == "quick" else ["C02", "--n", 8000, "--bin-variants", 4],
-    "search_args": lambda tier: ["C02", "--n", 2500, "--bin-variants", 2],
+    "search_args": lambda tier: ["C02", "--n", 800, "--bin-variants", 1],
     "harness_timeout": 2400,
     "level": "proof",
     "trusted_base": [
